@@ -48,9 +48,11 @@ type Prop struct {
 	Disabled      bool     `json:"disabled,omitempty"`
 	// DisabledNoReason: disabled by setting the exported field, without a reason (what a received description with
 	// `disabled: true` and no `disabled_reason` yields; the Disable builder always sets a reason)
-	DisabledNoReason bool   `json:"disabled_no_reason,omitempty"`
-	EmptyDefault     bool   `json:"empty_is_default,omitempty"`
-	DisplayName      string `json:"display_name,omitempty"`
+	DisabledNoReason bool `json:"disabled_no_reason,omitempty"`
+	// DisabledLate: Disable() is called on the property after the object schema holding it has been constructed
+	DisabledLate bool   `json:"disabled_late,omitempty"`
+	EmptyDefault bool   `json:"empty_is_default,omitempty"`
+	DisplayName  string `json:"display_name,omitempty"`
 }
 
 // Member is one alternative of a one-of.
@@ -75,6 +77,9 @@ type Spec struct {
 	EnumS     []string          `json:"enum_s,omitempty"`
 	EnumI     []int64           `json:"enum_i,omitempty"`
 	EnumNames map[string]string `json:"enum_names,omitempty"` // key (as text) -> display name
+	// Literal: the enum schema is written as a struct literal (all its fields are exported) instead of through a
+	// constructor; members without a display name then have a nil display value
+	Literal bool `json:"literal,omitempty"`
 	// containers
 	Item *Spec `json:"item,omitempty"`
 	Key  *Spec `json:"key,omitempty"`
@@ -151,10 +156,16 @@ func (s *Spec) write(b *strings.Builder) {
 		if len(s.EnumNames) > 0 {
 			b.WriteString("+names")
 		}
+		if s.Literal {
+			b.WriteString("+literal")
+		}
 	case KStrEnum, KTypedEnum:
 		fmt.Fprintf(b, "%s%q", s.Kind, s.EnumS)
 		if len(s.EnumNames) > 0 {
 			b.WriteString("+names")
+		}
+		if s.Literal {
+			b.WriteString("+literal")
 		}
 	case KList:
 		b.WriteString("list<")
@@ -195,6 +206,9 @@ func (s *Spec) write(b *strings.Builder) {
 			}
 			if p.Disabled {
 				b.WriteString(" disabled")
+				if p.DisabledLate {
+					b.WriteString("(late)")
+				}
 			}
 			if p.EmptyDefault {
 				b.WriteString(" empty=default")
@@ -321,17 +335,26 @@ func build(s *Spec) schema.Type {
 		for _, v := range s.EnumI {
 			m[v] = display(s.EnumNames[fmt.Sprint(v)])
 		}
+		if s.Literal {
+			return &schema.IntEnumSchema{EnumSchema: schema.EnumSchema[int64, int64]{ValidValuesMap: m}, IntUnits: UnitsOf(s.Units)}
+		}
 		return schema.NewIntEnumSchema(m, UnitsOf(s.Units))
 	case KStrEnum:
 		m := map[string]*schema.DisplayValue{}
 		for _, v := range s.EnumS {
 			m[v] = display(s.EnumNames[v])
 		}
+		if s.Literal {
+			return &schema.StringEnumSchema{TypedStringEnumSchema: schema.TypedStringEnumSchema[string]{EnumSchema: schema.EnumSchema[string, string]{ValidValuesMap: m}}}
+		}
 		return schema.NewStringEnumSchema(m)
 	case KTypedEnum:
 		m := map[MyStr]*schema.DisplayValue{}
 		for _, v := range s.EnumS {
 			m[MyStr(v)] = display(s.EnumNames[v])
+		}
+		if s.Literal {
+			return &schema.TypedStringEnumSchema[MyStr]{EnumSchema: schema.EnumSchema[string, MyStr]{ValidValuesMap: m}}
 		}
 		return schema.NewTypedStringEnumSchema[MyStr](m)
 	case KList:
@@ -371,7 +394,7 @@ func buildProps(s *Spec) map[string]*schema.PropertySchema {
 			disp = display(p.DisplayName)
 		}
 		ps := schema.NewPropertySchema(Build(p.Type), disp, p.Required, p.RequiredIf, p.RequiredIfNot, p.Conflicts, p.Default, nil)
-		if p.Disabled {
+		if p.Disabled && !p.DisabledLate {
 			if p.DisabledNoReason {
 				ps.Disabled = true
 			} else {
@@ -413,6 +436,16 @@ func BuildObject(s *Spec) *schema.ObjectSchema {
 
 func buildObject(s *Spec) *schema.ObjectSchema {
 	props := buildProps(s)
+	o := constructObject(s, props)
+	for _, p := range s.Props {
+		if p.Disabled && p.DisabledLate {
+			props[p.Name].Disable("disabled after construction")
+		}
+	}
+	return o
+}
+
+func constructObject(s *Spec, props map[string]*schema.PropertySchema) *schema.ObjectSchema {
 	if s.Struct == "" {
 		if s.Unenforced {
 			return schema.NewUnenforcedIDObjectSchema(s.ID, props)
